@@ -15,7 +15,7 @@ MANIFEST_META = {
     "hooks": {
         "guard": "MTBL_VERIF",
         "enable": ("the checks compile the library sources of /repo's working tree directly with clang and -DMTBL_VERIF (no "
-                   "autotools build); per-file command-line renames (-Dwrite=, -Dmkstemp=, -Dclock_gettime=, -Dmmap=, pthread "
+                   "autotools build); per-file command-line renames (-Dwrite=, -Dmkstemp=, -Dclock_gettime=, -Dmmap=, -Dclose=, pthread "
                    "shim) need no source change"),
         "baseline_off_cmd": "make -C /repo check",
         "source_commits": ["f6a573c"],  # hook commits in /repo (fix: commits are listed in KNOWN_FINDINGS.txt)
@@ -526,7 +526,7 @@ PROPS["C13"] = {
         "also_engines": ["vsched"],
         "level_text": ("The harness owns the schedule: mtbl/threadpool.c is compiled with its eleven pthread calls routed to a deterministic "
                        "scheduler (harness/vsched.h) in which every thread is a real pthread parked on a semaphore and exactly one runs; at "
-                       "every synchronisation call the choice source decides who runs next and which waiter a signal wakes; spurious "
+                       "every synchronisation call - and additionally between a thread's predicate check and the atomic release-and-wait of pthread_cond_wait, and at every close(2) made by writer.c / sorter.c / reader.c (where EBADF, i.e. a double close, is a violation of its own) - the choice source decides who runs next and which waiter a signal wakes; spurious "
                        "wake-ups can be injected; 'no enabled thread' is reported as deadlock structurally. Programs: the raw pool API (1-2 "
                        "caller threads with their own result handlers sharing a pool, ordered and unordered jobs), a real pooled writer "
                        "(output must be byte-identical to the un-pooled writer's), two pooled writers sharing one pool from two caller "
